@@ -117,6 +117,8 @@ def run_case(case) -> Result:
             m, s, h = v.get("MACD"), v.get("signal"), v.get("histogram")
             if None not in (m, s, h) and abs(h - (m - s)) > 2 * d:
                 bad("relation-broken", "histogram=MACD-signal", i, f"{m} {s} {h}")
+            if m is not None and s is not None and h is None:
+                bad("relation-broken", "histogram=MACD-signal", i, f"MACD {m} and signal {s} exist but the histogram is missing")
         elif cls == "Supertrend":
             t, dr, lg, sh = v.get("trend"), v.get("direction"), v.get("long"), v.get("short")
             if dr not in (1, -1):
